@@ -39,6 +39,16 @@ fn check(ctx: &mut Ctx, def: &[u8], cand: &[u8]) {
             let sig = if lib { "C03:compare-matches-but-must-not" } else { "C03:compare-must-match-but-does-not" };
             ctx.violation(sig, jobj(&[("def", jbytes(def)), ("cand", jbytes(cand)), ("expected", exp.to_string()), ("library", lib.to_string())]));
         }
+    } else if !cand.is_empty() {
+        // on a definition that carries a suffix the bare comparison knows no suffix rule and may refuse more than the
+        // rule allows (the suffix-aware entry point is mnemonic_match), but it is an observation point of the same
+        // iff: whatever it accepts must match by the rule
+        if mnemonic_compare(def, cand) {
+            ctx.count("compare.accepts(suffixed definition)");
+            if ref_match(def, cand) == Some(false) {
+                ctx.violation("C03:compare-matches-but-must-not:suffixed-definition", jobj(&[("def", jbytes(def)), ("cand", jbytes(cand))]));
+            }
+        }
     }
 }
 
